@@ -91,6 +91,49 @@ def replay_lines(ck, lines, stats):
             ck.sample({"pkgs": c["pkgs"], "dets": c["dets"], "expect_scan": exp["scan"], "render": o["render"]})
 
 
+def enricher_part(ck):
+    """Growth beyond the listed property (DESIGN section 8): EnricherRun.tla against the real enricher.Run.
+    A divergence is not a violation of C20 (the property speaks of detectors); it is reported on stderr as
+    CONFORMANCE-NOTE and recorded in the evidence under coverage.beyond_property, the verdict is unaffected."""
+    s = vf.tlc("EnricherRun", "EnricherRun-sanity.cfg", workers=4, collect=False, timeout=120)
+    if s.violated != "SanityPre":
+        raise vf.NotAVerdict("sanity invariant SanityPre not violated: vacuous enricher model")
+    tmpd = tempfile.mkdtemp(prefix="vc20e-")
+    try:
+        cf = os.path.join(tmpd, "enr.ndjson")
+        r = vf.require_ok(vf.tlc("EnricherRun", "EnricherRun.cfg", timeout=600, case_file=cf), "EnricherRun.cfg")
+        ck.add_tlc("EnricherRun.cfg", r, open(os.path.join(vf.SPEC, "cfg", "EnricherRun.cfg")).read().split("SPECIFICATION")[0].strip())
+        lines = [l.rstrip("\n") for l in open(cf) if l.strip()]
+        obs = vf.run_harness("vscanpipe", "enrich", infile=cf, timeout=1200)
+    finally:
+        shutil.rmtree(tmpd, ignore_errors=True)
+    if len(obs) != len(lines):
+        raise vf.NotAVerdict("enrich harness returned %d of %d cases" % (len(obs), len(lines)))
+    div = []
+    for o in obs:
+        c = json.loads(lines[o["i"]])
+        e, g = c["expect"], o["obs"]
+        bad = []
+        if "panic" in g:
+            bad.append("panic: " + g["panic"][:200])
+        else:
+            for k in ("err", "calls", "saw", "status", "inv", "fs"):
+                if g[k] != e[k]:
+                    bad.append("%s=%s required %s" % (k, g[k], e[k]))
+            if g["order"] != [i + 1 for i in range(len(c["ens"]))] * (1 if e["err"] == "none" else 0):
+                bad.append("call order %s" % g["order"])
+            if not g["rootok"]:
+                bad.append("scan input root not absolute (real root) / not empty (virtual or nil root)")
+        if bad:
+            div.append({"ens": c["ens"], "root": c["root"], "mismatch": bad})
+    for d in div[:5]:
+        vf.log("CONFORMANCE-NOTE enricher.Run deviates from EnricherRun.tla (outside C20): %s" % json.dumps(d))
+    ck.cov["beyond_property"] = {"EnricherRun.tla": {"cases_replayed_through_enricher.Run": len(obs), "divergences": len(div),
+                                                     "first_divergences": div[:3],
+                                                     "rule": "every list of <=4 enrichers over (Requirements nil | set x DirectFS) x error x adds-a-package, "
+                                                             "x scan root nil | relative real directory | virtual"}}
+
+
 def main():
     a = args.parse()
     ck = vf.Check("C20", "model_checking", tier=a.tier, seed=a.seed)
@@ -133,6 +176,7 @@ def main():
                 os.remove(os.path.join(vf.SPEC, f))
     if stats["n"] == 0:
         raise vf.NotAVerdict("no cases emitted")
+    enricher_part(ck)
     ck.count(stats["n"])
     ck.cov["distinct_nontrivial"] = stats["nontrivial"]
     ck.cov["traces_validated_against_impl"] = stats["n"]
